@@ -30,7 +30,7 @@ fn u6_queue_ops() {
     assert!(q.is_full() == (q.len == N), "C05 is_full iff len == capacity");
     assert!(q[q.len - 1].to_bits() == x.to_bits(), "C05 the pushed element is the newest");
     let i: usize = kani::any();
-    kani::assume(i + 1 < q.len);
+    kani::assume(i < q.len - 1);
     let shift = usize::from(old.len == N);
     assert!(q[i].to_bits() == old[i + shift].to_bits(), "C05 older elements keep their order (the oldest is dropped once full)");
     let (a, b) = q.as_slices();
